@@ -253,6 +253,7 @@ class Worker:
         self.pending = False
         self.prev_op = None
         self.serialised = False
+        self.stall = False
         self.thread = threading.Thread(target=self._main, name=f"simw-{idx}", daemon=True)
         self.thread.start()
 
@@ -284,7 +285,8 @@ class Worker:
         sim.current = self
 
 
-POLICIES = ("uniform", "start-first", "resume-first", "lifo", "starve", "pct")
+POLICIES = ("uniform", "start-first", "resume-first", "lifo", "starve", "pct", "stall")
+STALL_BUCKETS = 32
 GRANULARITIES = ("task", "line", "opcode-some", "opcode-all")
 
 
@@ -315,6 +317,8 @@ class Sim:
         self.rng = random.Random(seed)
         self.n_workers = 1 if mode == "sequential" else max(1, int(workers))
         self.granularity = "task" if mode == "sequential" else granularity
+        if policy == "stall" and mode == "prng" and self.granularity == "task":
+            self.granularity = "line"  # stalling needs trace events
         self.preempt_p = 0.0 if mode == "sequential" else preempt_p
         self.policy = policy
         self.pct_d = pct_d
@@ -322,6 +326,11 @@ class Sim:
         self._last_hot = None
         self._hot_left = {}
         self._decide_op = {}
+        # policy "stall": a slow node.  Every task that reaches a line of one per-run chosen family of acryo functions
+        # (hash of the function name) is parked there -- at the next point where a thread switch is possible -- and is
+        # not resumed as long as anything else can run.
+        self.stall_bucket = self.rng.randrange(STALL_BUCKETS) if (policy == "stall" and mode == "prng") else None
+        self._stall_of = {}
         self.script_preempts = set(map(tuple, preempts or ()))
         self.script_choices = [tuple(c) for c in (choices or ())]
         self.choice_i = 0
@@ -348,7 +357,7 @@ class Sim:
         self.stats = dict(
             gets=0, nested_gets=0, tasks=0, events=0, switches=0, max_inflight=0,
             lock_blocks=0, cache_clears=0, cache_clears_inflight=0, dup_exec=0,
-            cache_get_overlap=0, resumes=0, hot_events=0, serialised_tasks=0,
+            cache_get_overlap=0, resumes=0, hot_events=0, serialised_tasks=0, stalls=0,
         )
         self.sites = set()
         self.dup_mismatch = None
@@ -413,6 +422,14 @@ class Sim:
                                     self.stats["hot_events"] += 1
                         if p > 0 and self.rng.random() < p:
                             w.pending = True
+                        if self.stall_bucket is not None and not is_op:
+                            sb = self._stall_of.get(code)
+                            if sb is None:
+                                sb = self._stall_of[code] = hash_str(code.co_name) % STALL_BUCKETS
+                            if sb == self.stall_bucket and self.rng.random() < 0.5:
+                                w.pending = True
+                                w.stall = True
+                                self.stats["stalls"] += 1
                         if self.policy == "pct" and self._pct_change and self.stats["events"] >= self._pct_change[0]:
                             # PCT priority change point: demote the running worker and yield
                             self._pct_change.pop(0)
@@ -563,6 +580,7 @@ class Sim:
                 w.get_no = gno
                 w.k = 0
                 w.pending = False
+                w.stall = False
                 w.prev_op = None
                 w.site = None
                 w.state = "running"
@@ -645,6 +663,13 @@ class Sim:
             if starts and rng.random() < 0.6:
                 return starts[-1]
             return rng.randrange(n)
+        if pol == "stall":
+            free = [j for j, a in enumerate(acts) if not (a[0] == "resume" and a[1].stall)]
+            if free:
+                return free[rng.randrange(len(free))]
+            j = rng.randrange(n)
+            acts[j][1].stall = False
+            return j
         if pol == "starve":
             # the parked task with the lowest canonical index is resumed only when nothing else can run
             if resumes:
